@@ -713,6 +713,15 @@ def ch_queue(ctx, r):
     wm = {x["m"] for x in q.walk(wr["body"]) if x["k"] == "MethodCall" and x["m"] in ("push_back", "push_front", "push", "insert")}
     fifo = (rm, wm) in (({"pop_front"}, {"push_back"}), ({"pop_back"}, {"push_front"}))
     r.ob(fifo, "vm.rs:ChannelObject:not-fifo", VM, rd["l"], f"write uses {sorted(wm)} and read uses {sorted(rm)}: values must be removed from the end opposite to where they are added (each value delivered once, in order)", sample=f"channel: {sorted(wm)} / {sorted(rm)}")
+    # ChannelWrite: the value is queued on every execution of the instruction, whoever holds the channel at that moment
+    if "ChannelWrite" in by:
+        arm, an = by["ChannelWrite"]
+        enq = [ev for ev in an.events if ev.kind in ("mcall", "selfcall") and ev.data[0] == wr["name"]]
+        r.ob(len(enq) == 1 and not tuple(enq[0].conds), "vm.rs:step:ChannelWrite:conditional-enqueue", VM, arm["l"],
+             f"ChannelWrite must queue its value unconditionally; it does so {len(enq)} time(s)" + (f" under {[sshow(c) + ('' if pol else ' (false)') for c, pol in enq[0].conds]}" if enq and enq[0].conds else "") + ": a write that is skipped when nobody else holds the channel yet (a queue filled before the worker is spawned, a reply channel written before it is published) loses values that a later reader must receive",
+             sample="ChannelWrite: write_value on every path")
+    else:
+        r.missing("step:ChannelWrite", VM)
     # ChannelRead pushes only deep_copy(dequeued)
     if "ChannelRead" in by:
         arm, an = by["ChannelRead"]
